@@ -1102,7 +1102,7 @@ def iter_collect(m, a, ci):
     src = opaque_source(it0)
     if src is not None:
         d0 = head_ident(ci.dest_ty) if ci.dest_ty else 'Vec'
-        if d0 == 'String':
+        if d0 in ('String', 'EcoString'):
             return OStr(('collected', src.term, _adapter_kinds(it0)))
         return Opaque('collected', (src.term, _adapter_kinds(it0)))
     xs = drain(m, it0)
@@ -1124,7 +1124,7 @@ def iter_collect(m, a, ci):
                 return NONE
             out.append(x.fields[0] if isinstance(x, Agg) and x.ty == 'Option' else x)
         return some(Vec(out, 'Vec'))
-    if d == 'String':
+    if d in ('String', 'EcoString'):
         cs = []
         for x in xs:
             if isinstance(x, Str):
